@@ -31,7 +31,10 @@
              'union targets "alt | ... | main": without trailing filters inside the class (xml/json_stream_eq_select_union, split_filter_union; the '
              'correspondence runs the model with the disjunction of the branch predicates); WITH a trailing filter on the last branch the final '
              'predicate depends on the branch - outside the class of the theorems, COMPARED ONLY against the whole-document MatchAll selection in '
-             'document order'],
+             'document order',
+             'a fixed part of every run (replays/corpus/C04/plainpath_*.json, 19 cases): plain name paths of 3 and 4 steps, with and without a '
+             'trailing filter, with and without Release, over XML and JSON documents whose targets sit under several parents and grand-parents '
+             '(class of seeded change C04-r42); the random stream additionally aims 12% of its targets at plain paths of 3+ steps'],
  'assumptions': ['xml_no_doc_target: the path part does not select the XML document node itself (targets "." and "/" make the XML reader deliver the '
                  'top-level elements instead)',
                  'releases are of the node the last Read returned (or absent)',
